@@ -39,6 +39,11 @@ class BoolOperation(object):
             if self.done:
                 return
 
+            if f not in self.fs:
+                # The same future was passed more than once and has
+                # already been processed by an earlier callback.
+                return
+
             del self.fs[f]
 
             (set_result, set_exception, cancel_futures) = self.get_state_update(f)
